@@ -123,7 +123,7 @@ def gen_web(seed, tier, focus="C41"):
         ops.append(op)
     return {"engine": "websim", "seed": seed, "focus": focus,
             "cfg": {"nservers": ch.randint("config", "nservers", 2, 4), "k": 1, "n": 2,
-                    "net": {"threads": ch.pick("config", "threads", ["sync", "sync", "async"]), "lat_profile": ch.pick("config", "lat", ["uniform", "heavy", "fifo"]), "jitter": 0.02},
+                    "net": {"threads": ch.pick("config", "threads", ["sync", "sync", "async"]), "batch": ch.pick("config", "batch", [0, 0, 0, 0.001, 0.02, 0.3]), "lat_profile": ch.pick("config", "lat", ["uniform", "heavy", "fifo"]), "jitter": 0.02},
                     "dirfmt": ch.pick("config", "dirfmt", ["sdmf", "sdmf", "mdmf"])},
             "ops": ops, "faults": []}
 
